@@ -290,17 +290,25 @@ func (h *baseHandler) flush() {
 	numUnsentMessages := func() int {
 		return len(h.lines) + len(h.serverMessages) + len(h.maprMessages)
 	}
-	for i := 0; i < 10; i++ {
+	// Wait until the client has read everything (or the session is gone). Giving up
+	// here would let the close handshake overtake the lines which are still queued.
+	for i := 0; ; i++ {
 		if numUnsentMessages() == 0 {
 			dlog.Server.Debug(h.user, "ALL lines sent", fmt.Sprintf("%p", h))
 			vhook.At("flush.done", h, 0)
 			return
 		}
-		dlog.Server.Debug(h.user, "Still lines to be sent")
-		time.Sleep(time.Millisecond * 10)
+		if i == 10 {
+			dlog.Server.Debug(h.user, "Still lines to be sent, client is slow", numUnsentMessages())
+		}
+		select {
+		case <-h.done.Done():
+			dlog.Server.Warn(h.user, "Some lines remain unsent", numUnsentMessages())
+			vhook.At("flush.done", h, numUnsentMessages())
+			return
+		case <-time.After(time.Millisecond * 10):
+		}
 	}
-	dlog.Server.Warn(h.user, "Some lines remain unsent", numUnsentMessages())
-	vhook.At("flush.done", h, numUnsentMessages())
 }
 
 func (h *baseHandler) shutdown() {
